@@ -449,4 +449,274 @@ theorem orbitPatterns_nodup (orbit : List Nat) (modes : Nat) : (orbitPatterns or
 
 end orbit
 
+/-! ### hafnian: homogeneity under a diagonal sandwich; the exponential-family form of the GBS weight -/
+section hafnian
+variable {K : Type} [CommRing K]
+
+theorem picks_mem {l : List Nat} {p : Nat × List Nat} (hp : p ∈ picks l) : p.1 ∈ l ∧ ∀ x ∈ p.2, x ∈ l := by
+  induction l generalizing p with
+  | nil => cases hp
+  | cons a as ih =>
+    simp only [picks, List.mem_cons, List.mem_map] at hp
+    rcases hp with rfl | ⟨q, hq, rfl⟩
+    · exact ⟨List.mem_cons_self .., fun x hx => List.mem_cons_of_mem _ hx⟩
+    · obtain ⟨h1, h2⟩ := ih hq
+      refine ⟨List.mem_cons_of_mem _ h1, fun x hx => ?_⟩
+      rcases List.mem_cons.mp hx with rfl | hx
+      · exact List.mem_cons_self ..
+      · exact List.mem_cons_of_mem _ (h2 x hx)
+
+/-- taking an element out does not change the product over the list -/
+theorem picks_prod (f : Nat → K) {l : List Nat} {p : Nat × List Nat} (hp : p ∈ picks l) :
+    f p.1 * prodL (p.2.map f) = prodL (l.map f) := by
+  induction l generalizing p with
+  | nil => cases hp
+  | cons a as ih =>
+    simp only [picks, List.mem_cons, List.mem_map] at hp
+    rcases hp with rfl | ⟨q, hq, rfl⟩
+    · rfl
+    · have := ih hq
+      simp only [List.map_cons, prodL]
+      rw [← this]; ring
+
+theorem sumL_map_congr {α : Type} {l : List α} {f g : α → K} (h : ∀ e ∈ l, f e = g e) :
+    sumL (l.map f) = sumL (l.map g) := by
+  rw [List.map_congr_left h]
+
+/-- **homogeneity of the hafnian**: scaling row and column `i` by `s i` multiplies every perfect matching, hence the
+hafnian over any index list (with repetitions), by the product of the `s i` over the list -/
+theorem hafAux_scale (s : Nat → K) (A : Nat → Nat → K) (fuel : Nat) (idx : List Nat) :
+    hafAux (fun i j => s i * A i j * s j) fuel idx = prodL (idx.map s) * hafAux A fuel idx := by
+  induction fuel generalizing idx with
+  | zero =>
+    cases idx with
+    | nil => simp [hafAux, prodL]
+    | cons i rest => simp [hafAux]
+  | succ fuel ih =>
+    cases idx with
+    | nil => simp [hafAux, prodL]
+    | cons i rest =>
+      simp only [hafAux, List.map_cons, prodL]
+      rw [← sumL_map_mul_left]
+      apply sumL_map_congr
+      intro p hp
+      rw [ih p.2, ← picks_prod s hp]
+      ring
+
+theorem hafAux_congr {A B : Nat → Nat → K} (fuel : Nat) (idx : List Nat)
+    (h : ∀ i ∈ idx, ∀ j ∈ idx, A i j = B i j) : hafAux A fuel idx = hafAux B fuel idx := by
+  induction fuel generalizing idx with
+  | zero => cases idx <;> simp [hafAux]
+  | succ fuel ih =>
+    cases idx with
+    | nil => simp [hafAux]
+    | cons i rest =>
+      simp only [hafAux]
+      apply sumL_map_congr
+      intro p hp
+      obtain ⟨h1, h2⟩ := picks_mem hp
+      rw [h i (List.mem_cons_self ..) p.1 (List.mem_cons_of_mem _ h1),
+        ih p.2 fun a ha b hb => h a (List.mem_cons_of_mem _ (h2 a ha)) b (List.mem_cons_of_mem _ (h2 b hb))]
+
+theorem expand_lt (n : List Nat) (k0 : Nat) : ∀ x ∈ expand n k0, x < k0 + n.length := by
+  induction n generalizing k0 with
+  | nil => intro x hx; cases hx
+  | cons c rest ih =>
+    intro x hx
+    simp only [expand, List.mem_append, List.mem_replicate] at hx
+    rcases hx with ⟨_, rfl⟩ | hx
+    · simp
+    · have := ih (k0 + 1) x hx
+      simp only [List.length_cons]; omega
+
+theorem prodL_append (a b : List K) : prodL (a ++ b) = prodL a * prodL b := by
+  induction a with
+  | nil => simp [prodL]
+  | cons x xs ih => simp only [List.cons_append, prodL, ih]; ring
+
+theorem prodL_replicate (c : Nat) (x : K) : prodL (List.replicate c x) = pw x c := by
+  induction c with
+  | zero => rfl
+  | succ c ih => simp only [List.replicate_succ, prodL, ih, pw]; ring
+
+/-- the product of `f` over the expanded index list is `Π_k f(k0+k)^{n_k}` -/
+theorem prodL_expand (f : Nat → K) (n : List Nat) (k0 : Nat) : prodL ((expand n k0).map f) = monoL f n k0 := by
+  induction n generalizing k0 with
+  | nil => rfl
+  | cons c rest ih =>
+    simp only [expand, List.map_append, List.map_replicate, prodL_append, prodL_replicate, monoL, ih]
+
+theorem pw_mul_pw (x y : K) (c : Nat) : pw x c * pw y c = pw (x * y) c := by
+  induction c with
+  | zero => simp [pw]
+  | succ c ih => simp only [pw, ← ih]; ring
+
+theorem monoL_sq (s : Nat → K) (n : List Nat) (k0 : Nat) :
+    monoL s n k0 * monoL s n k0 = monoL (fun k => s k * s k) n k0 := by
+  induction n generalizing k0 with
+  | nil => simp [monoL]
+  | cons c rest ih =>
+    simp only [monoL]
+    rw [← ih (k0 + 1), ← pw_mul_pw]; ring
+
+theorem monoL_congr {f g : Nat → K} (n : List Nat) (k0 : Nat) (h : ∀ k, k0 ≤ k → k < k0 + n.length → f k = g k) :
+    monoL f n k0 = monoL g n k0 := by
+  induction n generalizing k0 with
+  | nil => rfl
+  | cons c rest ih =>
+    simp only [monoL]
+    rw [h k0 (Nat.le_refl _) (by simp), ih (k0 + 1) fun k h1 h2 => h k (by omega) (by simp only [List.length_cons]; omega)]
+
+theorem prodTo_one (m : Nat) : prodTo m (fun _ => (1 : K)) = 1 := by
+  induction m with
+  | zero => rfl
+  | succ m ih => simp [prodTo, ih]
+
+theorem prodTo_succ_left (m : Nat) (f : Nat → K) : prodTo (m + 1) f = f 0 * prodTo m (fun k => f (k + 1)) := by
+  induction m with
+  | zero => simp [prodTo]
+  | succ m ih =>
+    rw [prodTo, ih]
+    simp only [prodTo]; ring
+
+/-- the list recursion and the indexed product agree: `mono` is `monoL` at offset 0 -/
+theorem prodTo_eq_monoL (g : Nat → K) (n : List Nat) (m k0 : Nat) (hm : n.length ≤ m) :
+    prodTo m (fun k => pw (g (k0 + k)) (cnt n k)) = monoL g n k0 := by
+  induction n generalizing m k0 with
+  | nil =>
+    have : (fun k => pw (g (k0 + k)) (cnt [] k)) = fun _ => (1 : K) := by funext k; simp [cnt, pw]
+    rw [this, prodTo_one]; rfl
+  | cons c rest ih =>
+    obtain ⟨m', rfl⟩ : ∃ m', m = m' + 1 := ⟨m - 1, by simp only [List.length_cons] at hm; omega⟩
+    rw [prodTo_succ_left]
+    simp only [monoL]
+    have hfun : (fun k => pw (g (k0 + (k + 1))) (cnt (c :: rest) (k + 1)))
+        = fun k => pw (g (k0 + 1 + k)) (cnt rest k) := by
+      funext k
+      have : k0 + (k + 1) = k0 + 1 + k := by omega
+      simp [cnt, this]
+    rw [hfun, ih m' (k0 + 1) (by simp only [List.length_cons] at hm; omega)]
+    simp [cnt]
+
+theorem mono_eq_monoL (m : Nat) (w : Nat → K) (n : List Nat) (hm : n.length ≤ m) : mono m w n = monoL w n 0 := by
+  have := prodTo_eq_monoL w n m 0 hm
+  simpa [mono] using this
+
+/-- **the GBS weight is an exponential family in the weights**: for every pattern `n` on at most `m` modes,
+`|Haf((W A W)_n)|² = Π_k w_k^{n_k} · |Haf(A_n)|²` when `s_k² = w_k` -/
+theorem gbsWeight_vgbsA (m : Nat) (s w : Nat → K) (A : Nat → Nat → K) (n : List Nat) (hm : n.length ≤ m)
+    (hs : ∀ k, k < m → s k * s k = w k) :
+    gbsWeight (vgbsA m s A) n = mono m w n * gbsWeight A n := by
+  have hlt : ∀ x ∈ expand n 0, x < m := fun x hx => by have := expand_lt n 0 x hx; omega
+  have hcongr : haf (vgbsA m s A) (expand n 0) = haf (fun i j => s i * A i j * s j) (expand n 0) :=
+    hafAux_congr _ _ fun i hi j hj => vgbsA_entry (hlt i hi) (hlt j hj) s A
+  unfold gbsWeight
+  rw [hcongr]
+  unfold haf
+  rw [hafAux_scale, prodL_expand, mono_eq_monoL m w n hm]
+  have hw : monoL w n 0 = monoL (fun k => s k * s k) n 0 :=
+    monoL_congr n 0 fun k _ hk => (hs k (by omega)).symm
+  rw [hw, ← monoL_sq]
+  ring
+
+/-- the partition function of the model family over a pattern list is the sum of the GBS weights of the trained
+matrix: the truncated, renormalised distribution of `A(θ)` *is* `P_w(n) = c(n) Π w^n / Z(w)` with `c(n) = |Haf(A_n)|²/n!` -/
+theorem gbsSupport_Z (m : Nat) (s w : Nat → K) (A : Nat → Nat → K) (invfact : List Nat → K) (pats : List (List Nat))
+    (hm : ∀ n ∈ pats, n.length ≤ m) (hs : ∀ k, k < m → s k * s k = w k) :
+    Z m w (gbsSupport A invfact pats) = sumL (pats.map fun n => gbsWeight (vgbsA m s A) n * invfact n) := by
+  unfold Z gbsSupport
+  rw [List.map_map]
+  apply sumL_map_congr
+  intro n hn
+  simp only [Function.comp]
+  rw [gbsWeight_vgbsA m s w A n (hm n hn) hs]; ring
+
+theorem gbsSupport_num (m : Nat) (s w : Nat → K) (A : Nat → Nat → K) (invfact : List Nat → K) (n : List Nat)
+    (hm : n.length ≤ m) (hs : ∀ k, k < m → s k * s k = w k) :
+    (gbsWeight A n * invfact n) * mono m w n = gbsWeight (vgbsA m s A) n * invfact n := by
+  rw [gbsWeight_vgbsA m s w A n hm hs]; ring
+
+end hafnian
+
+/-! ### chemistry helpers -/
+section chemistry
+variable {K : Type} [CommRing K]
+
+theorem duschDelta_entry {a M k : Nat} (hk : k < M) (Lf : Nat → Nat → K) (sm ri rf linv : Nat → K) :
+    duschDelta a M Lf sm ri rf linv k = duschD a Lf sm ri rf k * linv k := by
+  unfold duschDelta
+  exact mm_diag_right (n := M) hk (fun _ j => duschD a Lf sm ri rf j) linv 0
+
+theorem dotCounts_append (a b : List Nat) (f : Nat → K) (k : Nat) :
+    dotCounts (a ++ b) f k = dotCounts a f k + dotCounts b f (k + a.length) := by
+  induction a generalizing k with
+  | nil => simp [dotCounts]
+  | cons c rest ih =>
+    simp only [List.cons_append, dotCounts, ih, List.length_cons]
+    have : k + 1 + rest.length = k + (rest.length + 1) := by omega
+    rw [this]; ring
+
+theorem energy_split (a b : List Nat) (h : a.length = b.length) (wp w : Nat → K) :
+    energy (a ++ b) wp w = dotCounts a wp 0 - dotCounts b w 0 := by
+  unfold energy
+  have hl : (a ++ b).length / 2 = a.length := by simp [h]; omega
+  rw [hl, List.take_left', List.drop_left'] <;> rfl
+
+theorem marginalCalls_mem (nModes nMax : Nat) (p : Nat × Nat) :
+    p ∈ marginalCalls nModes nMax ↔ p.1 < nModes ∧ p.2 < nMax := by
+  unfold marginalCalls
+  simp only [List.mem_flatMap, List.mem_range, List.mem_map]
+  constructor
+  · rintro ⟨mode, hm, i, hi, rfl⟩; exact ⟨hm, hi⟩
+  · rintro ⟨h1, h2⟩; exact ⟨p.1, h1, p.2, h2, rfl⟩
+
+theorem marginalCalls_length (nModes nMax : Nat) : (marginalCalls nModes nMax).length = nModes * nMax := by
+  unfold marginalCalls
+  induction nModes with
+  | zero => simp
+  | succ n ih =>
+    rw [List.range_succ, List.flatMap_append, List.length_append, ih]
+    simp; ring
+
+end chemistry
+
+/-! ### the sampling programs -/
+section programs
+
+theorem vibSampleOps_last (n : Nat) (anyT loss : Bool) :
+    (vibSampleOps n anyT loss).getLast? = some (.measureFock (List.range (vibSampleModes n anyT))) := by
+  simp [vibSampleOps]
+
+theorem lossOps_mem (loss : Bool) (modes : Nat) (o : QOp) :
+    o ∈ lossOps loss modes ↔ loss = true ∧ ∃ k, k < modes ∧ o = .loss k := by
+  unfold lossOps
+  cases loss <;> simp [eq_comm]
+
+/-- in `sample_tmsv` the time evolution touches the first `N` modes only -/
+theorem dynCore_modes (n : Nat) : ∀ o ∈ dynCore n, ∀ x ∈ o.modes, x < n := by
+  intro o ho x hx
+  simp only [dynCore, timeEvolutionOps, List.mem_append, List.mem_cons, List.mem_map, List.mem_range,
+    List.not_mem_nil, or_false] at ho
+  rcases ho with (rfl | ⟨i, hi, rfl⟩) | rfl
+  · simpa [QOp.modes] using hx
+  · simp only [QOp.modes, List.mem_cons, List.not_mem_nil, or_false] at hx; omega
+  · simpa [QOp.modes] using hx
+
+end programs
+
+/-! ### the certificate check of the driver's inverse -/
+section certificate
+variable {K : Type} [CommRing K] [DecidableEq K]
+
+theorem isInverse_sound (n : Nat) (X M : Nat → Nat → K) (h : isInverse n X M = true) {i j : Nat} (hi : i < n) (hj : j < n) :
+    mm n X M i j = if i = j then 1 else 0 := by
+  unfold isInverse at h
+  rw [List.all_eq_true] at h
+  have h1 := h i (List.mem_range.mpr hi)
+  rw [List.all_eq_true] at h1
+  have h2 := h1 j (List.mem_range.mpr hj)
+  simpa using h2
+
+end certificate
+
 end SFV.Train
